@@ -21,6 +21,19 @@ CHECKS = {
         technique="Lean 4 proof over a hand model + differential correspondence (lattice-exhaustive)"),
 }
 
+CHECKS["C04"] = dict(
+    category="proof",
+    text=("Lean 4 theorems (BlocV.Proofs.C04): for every operand the parser admits to a logical operator (true, false, "
+          "untyped null, boolean-typed null — any minor) AND/OR/XOR/NOT equal Kleene's tables, are symmetric, and their "
+          "truth value is independent of the type carried by the null; all six relational operators return null when "
+          "either operand is null, for ALL values; a null condition takes the false branch. Tied to /repo by a complete "
+          "enumeration of operand class x provenance (variable, constant, constructor, function result, table element, "
+          "tuple item) x operator, each expression evaluated five times per program, with deep variable dumps."),
+    design_ref="DESIGN.md §6 C04",
+    note=("Trusted: Lean kernel; model-to-code correspondence is tested (complete over the stated finite product); the "
+          "storage-level half (constant cells are never overwritten) is C05's frame theorem, here observed through dumps."),
+    technique="Lean 4 proof (finite case split lifted to all values) + complete provenance enumeration")
+
 NOT_YET = {}
 
 ALL = ["C%02d" % i for i in range(1, 20)]
